@@ -51,21 +51,25 @@ partial def loop (h : IO.FS.Stream) (out : IO.FS.Stream) (m : Mode) (cache : Dri
   | .api q, ["end"] =>
     for l in Driver.Api.finish q do out.putStrLn l
     out.putStrLn "end"
+    out.flush   -- a session may keep the driver alive across batches (the engine cache lives in this loop)
     loop h out .idle cache
   | .api q, _ => loop h out (.api (Driver.Api.feed q toks)) cache
   | .deriv q, ["end"] =>
     for l in Driver.Deriv.finish q do out.putStrLn l
     out.putStrLn "end"
+    out.flush   -- a session may keep the driver alive across batches (the engine cache lives in this loop)
     loop h out .idle cache
   | .deriv q, _ => loop h out (.deriv (Driver.Deriv.feed q toks)) cache
   | .quad q, ["end"] =>
     for l in Driver.Quad.finish q do out.putStrLn l
     out.putStrLn "end"
+    out.flush   -- a session may keep the driver alive across batches (the engine cache lives in this loop)
     loop h out .idle cache
   | .quad q, _ => loop h out (.quad (Driver.Quad.feed q toks)) cache
   | .pair q, ["end"] =>
     for l in Driver.Pair.finish q do out.putStrLn l
     out.putStrLn "end"
+    out.flush   -- a session may keep the driver alive across batches (the engine cache lives in this loop)
     loop h out .idle cache
   | .pair q, _ =>
     let (c', q') := Driver.Pair.feed cache q toks
